@@ -247,6 +247,10 @@ func init() {
 		in.extra["idealhash"] = 2
 		return nil
 	})
+	reg(vxPkg+"RealPools", func(in *Interp, c *Frame, fn *ssa.Function, a []Value) Value {
+		in.realPools = true
+		return nil
+	})
 	reg(vxPkg+"SelectAny", func(in *Interp, c *Frame, fn *ssa.Function, a []Value) Value {
 		in.selectAny = true
 		return nil
